@@ -18,8 +18,9 @@ def plan(ctx, quick_n, thorough_n):
     # no PCT for comp: the compensation loop of deal_n_continuously busy-polls without yielding while the
     # opposite ticket is in flight, and PCT never preempts a thread that does not yield (starvation is an
     # artefact of that strategy, not a deadlock of the queue)
-    return [("mix", n, {}), ("mix", n // 2, pct), ("mix", n // 3, fine), ("comp", n // 2, {}), ("comp", n // 4, fine),
-            ("timed", n // 2, {}), ("timed", n // 4, pct)]
+    eintr = {"VRT_FUTEX_EINTR": "4"}   # one in four sleeping futex waits returns -1/EINTR (spurious return, no word change)
+    return [("mix", n, {}), ("mix", n // 2, pct), ("mix", n // 3, fine), ("mix", n // 3, eintr), ("comp", n // 2, {}),
+            ("comp", n // 4, fine), ("timed", n // 2, {}), ("timed", n // 4, pct), ("timed", n // 3, eintr)]
 
 
 def corpus_cases(prop):
